@@ -36,6 +36,8 @@ type gor struct {
 	ready  func() bool // nil: runnable; otherwise blocked until it reports true
 	why    string
 	ctx    gctx
+
+	yielding bool // inside runtime.Gosched: not picked by another yielding goroutine (no ping-pong)
 }
 
 type modelTimer struct {
@@ -235,6 +237,28 @@ func (in *Exec) block(pred func() bool, why string) {
 		me.ready = nil
 	}
 	s.cur.ready = nil
+}
+
+// yield lets every other runnable goroutine run (each until it blocks, ends or yields in turn).
+func (in *Exec) yield() {
+	s := in.sched
+	if s == nil {
+		return
+	}
+	me := s.cur
+	if me.yielding {
+		return
+	}
+	me.yielding = true
+	for _, g := range s.gs {
+		if g == me || g.done || g.yielding {
+			continue
+		}
+		if g.ready == nil || g.ready() {
+			in.switchTo(g)
+		}
+	}
+	me.yielding = false
 }
 
 // killGoroutines ends every interpreted goroutine still alive when the path is over.
